@@ -134,7 +134,7 @@ Proof.
 Qed.
 
 Theorem fexec_norm t m o : fexec (norm_ftable t) m o = fexec t m o.
-Proof. unfold fexec. destruct o; rewrite !fcall_norm; reflexivity. Qed.
+Proof. unfold fexec. destruct o; rewrite ?fcall_norm; reflexivity. Qed.
 
 Theorem frange_norm t b e m : frange (norm_ftable t) b e m = frange t b e m.
 Proof. unfold frange. rewrite !fcall_norm. reflexivity. Qed.
@@ -153,7 +153,7 @@ Theorem fexec_of_table t : (forall m, norm_ftable t m = fm_expected m) ->
   forall m o, fexec t m o = Some (fm_step m o).
 Proof.
   intros H m o. rewrite <- fexec_norm, <- fexec_expected.
-  unfold fexec. destruct o; rewrite !(fcall_tbl_ext _ _ H); reflexivity.
+  unfold fexec. destruct o; rewrite ?(fcall_tbl_ext _ _ H); reflexivity.
 Qed.
 
 Theorem frange_of_table t : (forall m, norm_ftable t m = fm_expected m) ->
